@@ -79,6 +79,7 @@ def abstract_plate(I, name, tag, fresh_=True, shape=(1, 2)):
     cells = [[abstract_container(I, f'well {r},{c}', f'{tag}.{r}{c}', fresh_) for c in cols] for r in rows]
     p.fields.update(name=name, make='generic', n_rows=len(rows), n_columns=len(cols), row_names=rows, column_names=cols,
                     max_volume_per_well=fresh('mv', RS), wells=GridArr.concrete(cells, fresh_=fresh_))
+    clib.init_defaults(I, p)
     return p
 
 
